@@ -86,8 +86,8 @@ mutual
 theorem subDecVal_leaves (path : List Bytes) (l : Labels) (v : JVal) :
     subDecVal (path.foldl joinPrefix []) (l, true) v = ((leavesVal path v).1.foldl setLeaf l, (leavesVal path v).2) := by
   cases v with
-  | obj kvs => simp only [subDecVal, leavesVal]; exact subDecKvs_leaves path l kvs
-  | arr xs => simp [subDecVal, leavesVal]
+  | obj _ kvs => simp only [subDecVal, leavesVal]; exact subDecKvs_leaves path l kvs
+  | arr _ xs => simp [subDecVal, leavesVal]
   | str s => simp [subDecVal, leavesVal, setLeaf, pathLabel]
   | raw t => simp [subDecVal, leavesVal, setLeaf, pathLabel]
   | bad => simp [subDecVal, leavesVal]
@@ -108,7 +108,7 @@ end
 
 theorem json_meets (doc : JVal) (l : Labels) : jsonAll doc l = jsonLabels doc l := by
   cases doc with
-  | obj kvs =>
+  | obj _ kvs =>
     simp only [jsonAll, jsonLabels]
     have := subDecKvs_leaves [] l kvs
     simp only [List.foldl_nil] at this
